@@ -4,21 +4,20 @@ From OCV Require Import Base.Prelude Misc.Local Misc.LocalOracle Misc.LocalProof
 From Coq Require Import Permutation.
 Open Scope Z_scope.
 
-Definition ids (m : lmap) : list Z := map (fun kc => fst (snd kc)) m.
 (** identities of the values stored in some coroutine *)
 Definition stored (s : state) : list Z := flat_map (fun x => ids (co_map x)) (st_cos s).
-Definition opt_id (o : option cell) : list Z := match o with Some (i, _) => [i] | None => [] end.
 
-(** identities of the values that were still stored in a coroutine when it was dropped *)
-Fixpoint leaked_from (s : state) (ops : list op) : list Z :=
+(** identities of the values that were still stored in a coroutine when it was dropped and were
+    not released by the drop (none in the code as it is, all of them before the repair) *)
+Fixpoint leaked_from (rel : bool) (s : state) (ops : list op) : list Z :=
   match ops with
   | [] => []
   | o :: ops' =>
-      let '(s', _, _) := step s o in
+      let '(s', _) := step rel s o in
       (match o with
-       | DropCo c => match get_co s c with Some x => ids (co_map x) | None => [] end
+       | DropCo c => if rel then [] else match get_co s c with Some x => ids (co_map x) | None => [] end
        | _ => []
-       end) ++ leaked_from s' ops'
+       end) ++ leaked_from rel s' ops'
   end.
 
 Lemma del_perm x l : In x l -> Permutation l (x :: del x l).
@@ -88,10 +87,18 @@ Proof.
   apply (Permutation_cons_inv (a := i)). rewrite <- (del_perm i live Hin). exact H.
 Qed.
 
+Lemma del_list_perm : forall xs live rest,
+  Permutation live (xs ++ rest) -> Permutation (del_list xs live) rest.
+Proof.
+  induction xs as [|x xs IH]; intros live rest H; [exact H|].
+  unfold del_list. cbn [fold_left]. fold (del_list xs (del x live)). apply IH.
+  apply (free_perm (Some (x, 0))). exact H.
+Qed.
+
 (** the boxes still allocated are those of the values still stored plus those leaked at the drops *)
-Lemma live_inv : forall ops s L,
+Lemma live_inv rel : forall ops s L,
   Permutation (st_live s) (stored s ++ L) ->
-  Permutation (st_live (final_from s ops)) (stored (final_from s ops) ++ L ++ leaked_from s ops).
+  Permutation (st_live (final_from rel s ops)) (stored (final_from rel s ops) ++ L ++ leaked_from rel s ops).
 Proof.
   induction ops as [|o ops IH]; intros s L H; [cbn [final_from leaked_from]; rewrite app_nil_r; exact H|].
   rewrite final_from_cons. cbn [leaked_from]. unfold step_st.
@@ -115,41 +122,45 @@ Proof.
     destruct (stored_upd s c x {| co_alive := true; co_map := m |} (free old (st_live s)) Hx) as (R & S1 & S2).
     cbn [st_live]. rewrite S2. cbn [co_map].
     apply free_perm. rewrite H, S1, H1, <- !app_assoc. reflexivity.
-  - (* DropCo: the map is freed, the boxes are not *)
-    cbn [fst]. rewrite (app_assoc L). apply IH.
-    destruct (stored_upd s c x dead (st_live s) Hx) as (R & S1 & S2).
-    cbn [st_live]. rewrite S2. cbn [dead co_map ids map app]. rewrite H, S1, <- !app_assoc.
-    rewrite Permutation_app_comm, <- app_assoc. reflexivity.
+  - destruct rel; cbn [fst app].
+    + (* DropCo: the map is freed and so are the boxes it held *)
+      apply IH.
+      destruct (stored_upd s c x dead (del_list (ids (co_map x)) (st_live s)) Hx) as (R & S1 & S2).
+      cbn [st_live]. rewrite S2. cbn [dead co_map ids map app].
+      apply del_list_perm. rewrite H, S1, <- !app_assoc. reflexivity.
+    + (* DropCo before the repair: the map is freed, the boxes are not *)
+      rewrite (app_assoc L). apply IH.
+      destruct (stored_upd s c x dead (st_live s) Hx) as (R & S1 & S2).
+      cbn [st_live]. rewrite S2. cbn [dead co_map ids map app]. rewrite H, S1, <- !app_assoc.
+      rewrite Permutation_app_comm, <- app_assoc. reflexivity.
+  - destruct rel; cbn [fst app]; apply IH; exact H.
 Qed.
 
-Definition final_C25 (n : nat) (ops : list op) : state := final_from (init n) ops.
-Definition leaked_C25 (n : nat) (ops : list op) : list Z := leaked_from (init n) ops.
+Definition final_C25 (n : nat) (ops : list op) : state := final_from true (init n) ops.
+Definition old_final_C25 (n : nat) (ops : list op) : state := final_from false (init n) ops.
+Definition old_leaked_C25 (n : nat) (ops : list op) : list Z := leaked_from false (init n) ops.
 
 Lemma stored_init n : stored (init n) = [].
 Proof. unfold stored, init. cbn [st_cos]. induction n as [|n IH]; [reflexivity|]. cbn [repeat flat_map co0 co_map ids map app]. exact IH. Qed.
 
+Lemma nothing_leaked : forall ops s, leaked_from true s ops = [].
+Proof.
+  induction ops as [|o ops IH]; intros s; [reflexivity|]. cbn [leaked_from].
+  destruct (step true s o) as [s' r]. rewrite IH. destruct o; reflexivity.
+Qed.
+
+(** after any history the boxes still allocated are exactly those of the values still stored *)
 Theorem live_cells_exact n ops :
-  Permutation (st_live (final_C25 n ops)) (stored (final_C25 n ops) ++ leaked_C25 n ops).
+  Permutation (st_live (final_C25 n ops)) (stored (final_C25 n ops)).
 Proof.
-  unfold final_C25, leaked_C25. apply (live_inv ops (init n) []).
+  unfold final_C25. pose proof (live_inv true ops (init n) []) as H.
+  rewrite nothing_leaked, !app_nil_r in H. apply H. rewrite stored_init. reflexivity.
+Qed.
+
+(** before the repair: plus those that were stored in a coroutine when it was dropped *)
+Theorem old_live_cells_exact n ops :
+  Permutation (st_live (old_final_C25 n ops)) (stored (old_final_C25 n ops) ++ old_leaked_C25 n ops).
+Proof.
+  unfold old_final_C25, old_leaked_C25. apply (live_inv false ops (init n) []).
   rewrite stored_init. reflexivity.
-Qed.
-
-Lemma no_leak_no_leaked : forall ops s, leaks_from s ops = false -> leaked_from s ops = [].
-Proof.
-  induction ops as [|o ops IH]; intros s H; [reflexivity|].
-  rewrite leaks_from_cons in H. apply orb_false_iff in H as [H1 H2].
-  cbn [leaked_from]. unfold step_leak, step_st in *.
-  destruct o as [c k id v|c k|c k v|c k|c]; cbn [step] in *; destruct (get_co s c) as [x|] eqn:Hx;
-    try (destruct (lm_insert (co_map x) k (id, v))); try (destruct (lm_remove (co_map x) k));
-    cbn [fst snd app] in *; try (apply IH; exact H2).
-  destruct (co_map x); [|discriminate]. cbn [ids map app]. apply IH. exact H2.
-Qed.
-
-Theorem no_leak_outside n ops :
-  no_defect_C25 n ops = true -> Permutation (st_live (final_C25 n ops)) (stored (final_C25 n ops)).
-Proof.
-  intros H. pose proof (live_cells_exact n ops) as Hp. unfold leaked_C25 in Hp.
-  rewrite no_leak_no_leaked, app_nil_r in Hp; [exact Hp|].
-  unfold no_defect_C25, defect_C25_values_leaked_on_drop in H. apply negb_true_iff in H. exact H.
 Qed.
